@@ -24,6 +24,84 @@ type InProc struct {
 	Log []Exchange // every exchange, when Record is set
 	// Record enables logging of exchanges (method, target, headers, bodies).
 	Record bool
+	// Shape, when set, changes how the request body is presented to the
+	// handler (see ShapeBody); the request itself is the same.
+	Shape string
+}
+
+// BodyShapes are the presentations ShapeBody knows besides "" (as parsed).
+// All of them are legal io.Reader behaviour and legal HTTP framings of the
+// same request, so no answer may depend on them.
+//
+//	unknown   length not announced (ContentLength -1, chunked), plain reader
+//	trickle   unknown length, one byte per Read, (0, nil) for a zero-length Read
+//	stutter   unknown length, (0, nil) before every delivery
+//	tail-eof  known length, the last bytes come together with io.EOF (what
+//	          net/http does for a body with a Content-Length)
+var BodyShapes = []string{"unknown", "trickle", "stutter", "tail-eof"}
+
+type trickleReader struct{ r io.Reader }
+
+func (t trickleReader) Read(p []byte) (int, error) {
+	if len(p) == 0 {
+		return 0, nil
+	}
+	return t.r.Read(p[:1])
+}
+
+type stutterReader struct {
+	r    io.Reader
+	tick bool
+}
+
+func (s *stutterReader) Read(p []byte) (int, error) {
+	s.tick = !s.tick
+	if s.tick || len(p) == 0 {
+		return 0, nil
+	}
+	return s.r.Read(p)
+}
+
+type tailEOFReader struct {
+	b   []byte
+	off int
+}
+
+func (t *tailEOFReader) Read(p []byte) (int, error) {
+	if t.off >= len(t.b) {
+		return 0, io.EOF
+	}
+	if len(p) == 0 {
+		return 0, nil
+	}
+	n := copy(p, t.b[t.off:])
+	t.off += n
+	if t.off >= len(t.b) {
+		return n, io.EOF
+	}
+	return n, nil
+}
+
+// ShapeBody replaces the body of a server-side request by another
+// presentation of the same bytes.
+func ShapeBody(sreq *http.Request, body []byte, shape string) {
+	switch shape {
+	case "unknown", "trickle", "stutter":
+		var rd io.Reader = bytes.NewReader(body)
+		if shape == "trickle" {
+			rd = trickleReader{rd}
+		} else if shape == "stutter" {
+			rd = &stutterReader{r: rd}
+		}
+		sreq.Body = ioutil.NopCloser(rd)
+		sreq.ContentLength = -1
+		sreq.TransferEncoding = []string{"chunked"}
+		sreq.Header.Del("Content-Length")
+	case "tail-eof":
+		sreq.Body = ioutil.NopCloser(&tailEOFReader{b: body})
+		sreq.ContentLength = int64(len(body))
+		sreq.TransferEncoding = nil
+	}
 }
 
 // Exchange is one recorded request/response pair.
@@ -65,9 +143,12 @@ func (c *InProc) RoundTrip(req *http.Request) (*http.Response, error) {
 		return nil, err
 	}
 	var reqBody []byte
-	if c.Record {
+	if c.Record || c.Shape != "" {
 		reqBody, _ = ioutil.ReadAll(sreq.Body)
 		sreq.Body = ioutil.NopCloser(bytes.NewReader(reqBody))
+		if c.Shape != "" {
+			ShapeBody(sreq, reqBody, c.Shape)
+		}
 	}
 	rec := httptest.NewRecorder()
 	c.Handler.ServeHTTP(rec, sreq)
